@@ -97,25 +97,26 @@ Proof. intros start progs s t Hn R. exact (unlock_releases_of_inv s t (reachable
 Print Assumptions spin_unlock_releases.
 
 (* ---- non-vacuity: the hypotheses are met by concrete reachable states ---- *)
+Local Close Scope Z_scope.
 Definition ex_progs := [[OLock; OUnlock]; [OLock; OUnlock]; [OTry; OUnlock]].
-Definition top : Z := 4294967295.     (* 2^32 - 1: the first ticket taken wraps users to 0 *)
+Definition top : Z := 4294967295%Z.   (* 2^32 - 1: the first ticket taken wraps users to 0 *)
 Definition ex_state sch := fst (run_sched M (init top ex_progs) sch).
 
-Example ex_guard : Z.of_nat (length ex_progs) < W.
+Example ex_guard : (Z.of_nat (length ex_progs) < W)%Z.
 Proof. reflexivity. Qed.
 
 (* thread 0 holds ticket 2^32-1, thread 1 spins with ticket 0: users wrapped to 1 *)
 Example ex_holder_and_waiter :
   let s := ex_state [0;1;0;1] in
   reachable M (init top ex_progs) s /\ in_cs s 0 /\ pc (thr s 1) = LSpin /\
-  ticket s = top /\ users s = 1 /\ qlen s = 2 /\ my (thr s 1) = 0.
+  ticket s = top /\ users s = 1%Z /\ qlen s = 2%Z /\ my (thr s 1) = 0%Z.
 Proof. split; [apply run_sched_reachable; constructor | vm_compute; repeat split; reflexivity]. Qed.
 
 (* the unlock's store wraps the ticket half from 2^32-1 to 0, then thread 1 acquires *)
 Example ex_unlock_wraps :
   let s := ex_state [0;1;0;1;0] in
   reachable M (init top ex_progs) s /\ pc (thr s 0) = UStore /\
-  ticket s = top /\ ticket (fst (step s 0)) = 0 /\
+  ticket s = top /\ ticket (fst (step s 0)) = 0%Z /\
   in_cs (fst (step (fst (step s 0)) 1)) 1.
 Proof. split; [apply run_sched_reachable; constructor | vm_compute; repeat split; reflexivity]. Qed.
 
@@ -123,14 +124,14 @@ Proof. split; [apply run_sched_reachable; constructor | vm_compute; repeat split
 Example ex_trylock_succeeds :
   let s := ex_state [2] in
   reachable M (init top ex_progs) s /\ pc (thr s 2) = TCas /\
-  blob s = my (thr s 2) * W + my (thr s 2).
+  blob s = (my (thr s 2) * W + my (thr s 2))%Z.
 Proof. split; [apply run_sched_reachable; constructor | vm_compute; repeat split; reflexivity]. Qed.
 
 (* a trylock whose CAS is about to fail: thread 0 took the lock in between *)
 Example ex_trylock_fails :
   let s := ex_state [2;0;0] in
   reachable M (init top ex_progs) s /\ pc (thr s 2) = TCas /\ in_cs s 0 /\
-  blob s <> my (thr s 2) * W + my (thr s 2) /\
+  blob s <> (my (thr s 2) * W + my (thr s 2))%Z /\
   ~ in_cs (fst (step s 2)) 2.
 Proof.
   split; [apply run_sched_reachable; constructor | vm_compute; repeat split; try reflexivity; discriminate].
@@ -140,18 +141,18 @@ Qed.
 Example ex_unlocker_reachable :
   let s := ex_state [0;0] in
   reachable M (init top ex_progs) s /\ pc (thr s 0) = URead.
-Proof. split; [apply run_sched_reachable; constructor | vm_compute; reflexivity]. Qed.
+Proof. split; [apply run_sched_reachable; constructor | vm_compute; split; reflexivity]. Qed.
 
-(* history: tickets taken in the order 1,0,2(try fails: no ticket),.. ;
-   acquisitions follow the ticket order although thread 0 polls first *)
-Example ex_history :
-  let x := irun (iinit top ex_progs) [1;0;0;0;1;0;1;1;1;0;0;0] in
-  ireach top ex_progs x /\ tlog x = [1%nat; 0%nat] /\ alog x = [1%nat; 0%nat] /\
-  ticket (base x) = 1 /\ users (base x) = 1.
-Proof. split; [apply ireach_irun; constructor | vm_compute; repeat split; reflexivity]. Qed.
-
+(* history: thread 1 takes its ticket first, thread 0 second; thread 0 polls
+   first but the acquisitions follow the ticket order *)
 Example ex_history_pending :
   let x := irun (iinit top ex_progs) [1;0;0;0] in
-  ireach top ex_progs x /\ tlog x = [1%nat; 0%nat] /\ alog x = [] /\
+  ireach top ex_progs x /\ tlog x = [1; 0] /\ alog x = [] /\
   pc (thr (base x) 0) = LSpin /\ pc (thr (base x) 1) = LSpin.
+Proof. split; [apply ireach_irun; constructor | vm_compute; repeat split; reflexivity]. Qed.
+
+Example ex_history :
+  let x := irun (iinit top ex_progs) [1;0;0;0;1;0;1;1;0;0;0;0] in
+  ireach top ex_progs x /\ tlog x = [1; 0] /\ alog x = [1; 0] /\
+  ticket (base x) = 1%Z /\ users (base x) = 1%Z.
 Proof. split; [apply ireach_irun; constructor | vm_compute; repeat split; reflexivity]. Qed.
